@@ -3,7 +3,7 @@
    Nesting: cfg observation = list of block observations; block observation = list of sections;
    section = list of rows; row = list of items; item = list Z. *)
 From Coq Require Import ZArith List Bool.
-From V.C01 Require Import ModelLower.
+From V.C01 Require Import ModelLower ModelCond.
 Import ListNotations.
 Open Scope Z_scope.
 
@@ -23,7 +23,7 @@ Fixpoint index_from {A} (i : nat) (l : list A) : list (nat * A) :=
 Definition block_obs (c : cfg) (ib : nat * bb) : list section :=
   let (i, b) := ib in
   let secA := enc_row (b_in b) :: map enc_row (b_outs b) in
-  if Nat.eqb i (c_exit c) then [secA; []; []; []]
+  if Nat.eqb i (c_exit c) then [secA; []; []; []; []]
   else
     let secB := match block_outputs c b with
                 | None => [err_row]
@@ -32,7 +32,20 @@ Definition block_obs (c : cfg) (ib : nat * bb) : list section :=
     let secC := map (fun k => match delivered c b k with Some r => tys r | None => err_row end)
                     (seq 0 (length (b_succs b))) in
     let secD := map (fun s => tys (declared c s)) (b_succs b) in
-    [secA; secB; secC; secD].
+    (* the Conditional of choose_vars_for_tuple_sum: [[consistent]] ; types of its other inputs ;
+       per case the input offsets wired into the Tag *)
+    let secE := match b_succs b, b_outs b with
+                | _ :: _ :: _, first :: rest =>
+                    if forallb (same_ids first) rest then []
+                    else let rows := tuple_sum_rows b in
+                         [[b2z (rows_consistent rows)]] :: tys (all_vars rows) ::
+                         map (fun i => match case_indices rows i with
+                                       | Some ks => map (fun k => [Z.of_nat k]) ks
+                                       | None => err_row
+                                       end) (seq 0 (length rows))
+                | _, _ => []
+                end in
+    [secA; secB; secC; secD; secE].
 
 Definition observe (pre : cfg) (inputs : list (Z * bool)) : list (list section) :=
   match guarded_insert pre with
